@@ -1,5 +1,5 @@
 CFG = {
-    "modules": ["Parsley.Props.C04", "Parsley.Props.C04Ctx", "Parsley.Props.C04E2E", "Parsley.Props.C04Hist", "Parsley.Props.C04HistMix"],
+    "modules": ["Parsley.Props.C04", "Parsley.Props.C04Ctx", "Parsley.Props.C04E2E", "Parsley.Props.C04Hist", "Parsley.Props.C04HistMix", "Parsley.Props.C04Enc"],
     "theorems": [
         "Parsley.C04.prev_cycle_or_oob_rejected", "Parsley.C04.root_from_newest", "Parsley.C04.merge_is_newest_wins_partial",
         "Parsley.C04.infoOf_inFile",
@@ -28,6 +28,13 @@ CFG = {
         "Parsley.C04.newest_wins_history_mix", "Parsley.C04.newest_wins_history_mix_objs", "Parsley.C04.newest_wins_history_mix_spec",
         "Parsley.C04.exMix_wf", "Parsley.LoaderE2E.xrefLoop_msecs", "Parsley.LoaderE2E.MixFile.xrefinfo_mix",
         "Parsley.LoaderE2E.stage_merged_from", "Parsley.LoaderE2E.msec_reads", "Parsley.LoaderE2E.regAll_spec",
+        # mutation sweep follow-up: the `encrypted` flag along the /Prev chain
+        "Parsley.C04.declared_above_stream_adds_nothing", "Parsley.C04.encrypt_declared_below_streams_witness",
+        "Parsley.C04.encrypt_in_stream_dict_ignored_observation",
+        "Parsley.C03.section_raises_flag", "Parsley.C03.stream_refused_when_flagged", "Parsley.C03.loop_adds_nothing_when_flagged",
+        "Parsley.C03.objstm_skipped_when_flagged", "Parsley.C03.refused_declared_above_stream",
+        "Parsley.DocSpec.renderHistoryE_none", "Parsley.DocSpec.asBuilt_classic", "Parsley.DocSpec.asBuilt_undeclared",
+        "Parsley.DocSpec.asBuilt_reject_acceptable", "Parsley.DocSpec.walkFlag_true_trailer", "Parsley.DocSpec.asBuilt_one_section",
     ],
     "partial": {
         "merge_is_newest_wins_partial":
@@ -56,6 +63,10 @@ CFG = {
             "are all derived). Non-vacuity exHist2_wf, exHist3_wf (three classic revisions, the last re-creates a freed object), exMix_wf (classic base + stream update with /Prev). "
             "STILL OPEN: hybrid (/XRefStm) sections and /Encrypt in a history with stream sections, objects that load only in the second pass (forward /Length) in a history "
             "(single revisions of all these kinds: C03 load_defines_exactly_xrefstream_all / _hybrid_all), the link renderHistory -> MixFile. "
+            "ENCRYPTION: histories that declare /Encrypt are judged on the real code by DocSpec.acceptable (refused, or exactly DocSpec.resolve of the chain; 8 generator families). KNOWN FINDING "
+            "encrypt-declared-below-streams (witness Props/C04Enc.lean): a trailer that declares BELOW a stream section is read after that stream was accepted - the load is accepted and every "
+            "object-stream member is silently undefined, which breaks the statement literally. Observation, not a finding: a declaration only in a stream dictionary is never consulted and the "
+            "history loads exactly (encrypt_in_stream_dict_ignored_observation). "
             "EXCLUDED (real defects, known findings with witness theorems, not proof gaps): histories in which a number changes generation (#29) and object-stream "
             "members mentioned again later (#30; more generally any in-stream entry); also hybrid sections and objects that only load in the second pass. NOT proved: "
             "that a history rendered by DocSpec.renderHistory satisfies the hypotheses (getXrefInfo succeeds along the rendered chain) - C03's load_defines_exactly_classic "
@@ -76,7 +87,16 @@ CFG = {
             "|file|+{0,1,1000} (must be rejected); 7 the newest /Prev skips revisions (the skipped ones must not count). Every 8th case index a `big` history: two revisions whose object numbers agree modulo 65536 (5 / 65541, 7 / 196615) or whose "
             "generation exceeds 65535 (11 65536 next to 12 0, cross-reference-stream base) - the update adds the large ones / both in the base and the update redefines a small one / "
             "large ones in the base and the update adds the small ones; every identifier must be its own object (catches a merge keyed by a truncated identifier). Every 16th a "
-            "one-revision `w0` file (cross-reference stream without a type field, plain or hybrid; see C03). Every 3rd history also with one "
+            "one-revision `w0` file (cross-reference stream without a type field, plain or hybrid; see C03). Every 4th case index an `ench` history of 2-4 revisions (thorough: up to 6 for a third) in which revisions DECLARE ENCRYPTION "
+            "(/Encrypt <reference | dictionary> in a trailer and / or a cross-reference stream's dictionary; encoder DocSpec.renderHistoryE, proved equal to renderHistory without declarations), 8 families: "
+            "0 classic tables only, some trailers declare; 1 the NEWEST section is a classic table that declares and an older one is / has a cross-reference stream (the code refuses); "
+            "2 a classic table declares, everything below it classic, above it sections with cross-reference / object streams (the code accepts and skips the object streams - known class "
+            "encrypt-declared-below-streams when members go missing); 3 every revision declares where its layout allows; 4 only cross-reference stream dictionaries declare (never consulted: "
+            "loads exactly); 5 layouts, declaring revisions and placements all random; 6 the declaring revision is NOT on the /Prev chain (skipped: must load as a plain history, refusal not allowed); 7 one hybrid "
+            "section declares in its trailer / its /XRefStm stream's dictionary / both, at any position. Oracle = DocSpec.acceptable: a chain that declares may be REFUSED or must load EXACTLY DocSpec.resolve "
+            "of the chain; accepted with objects missing / extra / wrong is bad; the known class is reported only for a case of that shape (as-built rule ends with the flag up) whose output is exactly the "
+            "load without the object-stream members. corpus/C04/encrypted.case: hand-built declared-above-stream history (`decl`), undeclared controls, the finding's witness file. "
+            "Every 3rd history also with one "
             "corruption (correspondence and no panic). Oracle = DocSpec.resolve over the revisions on the chain. Classifiers decided on the case: "
             "'generation-changed' = some number is mentioned with two generations; 'objstm-member-touched-later' = a member number is mentioned by a later "
             "revision; anything else that disagrees is 'wrong-merge' and reported. non-trivial = history of >= 500 bytes or corpus case; distinct by hash",
@@ -86,6 +106,7 @@ CFG = {
         "hook (feature verif): exit_log! unwinds with VerifExit instead of process::exit(1); PDFObjContext::verif_ids lists the defined identifiers",
     ],
     "assumptions": [
+        "histories that declare encryption are not really encrypted (the loader never decrypts; only the declarations and their positions on the chain matter)",
         "the harness needs the hook patch pending_fixes/C03-00-hook-unwinding-exit-log.patch applied to /repo",
         "updates do not edit infrastructure objects (length holders, object-stream containers, cross-reference stream objects)",
     ],
@@ -104,5 +125,8 @@ LEVEL = {
             "of revisions encoded with classic tables or cross-reference streams in any mix (declarative layout MixFile, all offsets computed from the layout, stable generations) parse_data accepts, reports the newest "
             "root and the final context equals the oracle DocSpec.resolve of what the revisions said. Histories with hybrid sections, changing generations and "
             "object streams are decided on the real code by the "
-            "oracle over generated histories (add / redefine / free, mixed table and stream sections, all /Prev targets).",
+            "oracle over generated histories (add / redefine / free, mixed table and stream sections, all /Prev targets). "
+            "THE ENCRYPTED FLAG ALONG THE CHAIN (Props/C04Enc.lean): a classic section that declares /Encrypt above a non-table section makes the walk refuse (or use none of its entries) - "
+            "declared_above_stream_adds_nothing; the mirror image (declaration below the streams) is accepted with the object streams skipped and the members undefined: known finding with witness; histories "
+            "declaring encryption in 8 families (newest / older / hybrid / off-chain revision, every layout mix) must be refused or load exactly.",
 }
